@@ -1613,7 +1613,7 @@ def forwarding_instances(repo, cls, fn, pred, env=None, nested_root=None, depth=
     for n in ast.walk(fn):
         if not isinstance(n, ast.Call):
             continue
-        in_nested = nested_root if nested_root is not None else (id(n) in nested)
+        in_nested = bool(nested_root) or (id(n) in nested)
         if pred(n):
             pos = [subst_expr(astq.inline_locals(fn, a), env) for a in n.args if not isinstance(a, ast.Starred)]
             kws = [(k.arg, subst_expr(astq.inline_locals(fn, k.value), env)) for k in n.keywords if k.arg]
